@@ -129,6 +129,20 @@ func (pc *polyCtx) of(v ssa.Value, d int) poly {
 			return pc.of(bo.X, d+1).add(pc.of(bo.Y, d+1), -1)
 		case token.MUL:
 			return pc.of(bo.X, d+1).mul(pc.of(bo.Y, d+1))
+		case token.REM:
+			// X % Y = X - Y*(X/Y) when the function also computes that quotient (same operands as polynomials)
+			if fn := bo.Parent(); fn != nil {
+				X, Y := pc.of(bo.X, d+1), pc.of(bo.Y, d+1)
+				var quo *ssa.BinOp
+				core.AllInstrs(fn, func(in ssa.Instruction) {
+					if q, ok := in.(*ssa.BinOp); ok && quo == nil && q.Op == token.QUO && pc.of(q.X, d+1).eq(X) && pc.of(q.Y, d+1).eq(Y) {
+						quo = q
+					}
+				})
+				if quo != nil {
+					return X.add(Y.mul(pc.leafPoly(quo)), -1)
+				}
+			}
 		}
 	}
 	return poly{pc.leaf(v): 1}
